@@ -275,6 +275,11 @@ static void safe_case(const vh::Json& sc, vh::Out& out, const vh::Args& args) {
         Table T(brng); const std::string nv = sc["netvar"].str();
         owned.reset(build(sc["r"], T, brng, nv, Bytes())); fill_dns(owned.get(), false, brng); obj = owned.get();
         std::unique_ptr<PDU> rp(build(sc["m"], T, brng, nv, Bytes())); fill_dns(rp.get(), true, brng); reply = rp->serialize();
+        // source "unreach": the destination-unreachable error that quotes THIS request (addresses mirrored as in the reply), so that the
+        // quoted-datagram comparison behind the type test sees every truncation of a quote that agrees with the request
+        if (src == "unreach") { Bytes reqb; try { std::unique_ptr<PDU> c(obj->clone()); reqb = c->serialize(); } catch (std::exception&) {}
+            if (!reqb.empty()) { vh::Json m2 = sc["m"]; for (size_t q = 0; q < m2.o.size(); ++q) if (m2.o[q].first == "upper") { m2.o[q].second.kind = vh::Json::Str; m2.o[q].second.s = "unreach"; }
+                try { std::unique_ptr<PDU> er(build(m2, T, brng, nv, quote_of(reqb, sc["r"]["net"].str()))); reply = er->serialize(); } catch (std::exception&) {} } }
     } else {
         std::map<std::string, PDU*>::iterator it = OBJS.find(label);
         if (it == OBJS.end()) { out.begin("\"part\":\"safe\",\"obj\":\"" + label + "\""); vh::W w; w.O().kv("e", "safe").kv("obj", label).kv("src", src).kv("n", (long)n).kv("len", -1).kv("missing", true).kv("heap", false).kv("guard", false).E(); out.event(w); out.end(); return; }
@@ -282,7 +287,7 @@ static void safe_case(const vh::Json& sc, vh::Out& out, const vh::Args& args) {
         try { std::unique_ptr<PDU> c(obj->clone()); reply = c->serialize(); } catch (std::exception&) { reply.clear(); }   // the object's own wire image passes most gates
     }
     Bytes buf(128, 0);
-    if (src == "reply" || src == "mutated") { for (size_t i = 0; i < 128 && i < reply.size(); ++i) buf[i] = reply[i];
+    if (src == "reply" || src == "mutated" || src == "unreach") { for (size_t i = 0; i < 128 && i < reply.size(); ++i) buf[i] = reply[i];
         if (src == "mutated") { int k = rng.range(1, 3); for (int i = 0; i < k; ++i) buf[rng.below(reply.empty() ? 128 : (uint32_t)std::min<size_t>(128, reply.size()))] = (uint8_t)rng.below(256); } }
     // the object's own wire image with the leading (type / opcode) octet of its innermost layer changed to a neighbouring value or to 0:
     // what a response to it carries there (ICMP echo 8 -> 0, timestamp 13 -> 14, ICMPv6 solicitations 133 -> 134 and 135 -> 136,
